@@ -362,6 +362,7 @@ class Exec:
         self.cuts = []
         self.depth = 0
         self.item_stack = []
+        self.closure_contract = None
 
     # ---- entry point -------------------------------------------------------------------------
     def call(self, fname, args):
@@ -885,6 +886,9 @@ class Exec:
             target = self.mir.items[self.mir.closures[m.group(1)]]
             env, tup = args
             cargs = [env] + list(tup.fields)
+            if self.closure_contract is not None:
+                self.models_used.add("contract:closure %s" % target.name.split("::")[-2])
+                return self.closure_contract(self, target, cargs)
             return self._summarise(target, cargs)
         try:
             target = self.mir.find(key)
